@@ -19,6 +19,18 @@ CEIL = z3.Function("ceil", z3.RealSort(), z3.IntSort())
 LOG = z3.Function("log", z3.RealSort(), z3.RealSort())
 EXP = z3.Function("exp", z3.RealSort(), z3.RealSort())
 STR_OF_INT = z3.Function("str_of_int", z3.IntSort(), z3.StringSort())
+SUM_REAL = z3.Function("sum_real", z3.ArraySort(z3.IntSort(), z3.RealSort()), z3.IntSort(), z3.RealSort())     # sum of the first k elements
+SUM_INT = z3.Function("sum_int", z3.ArraySort(z3.IntSort(), z3.IntSort()), z3.IntSort(), z3.IntSort())
+
+
+def sum_axioms(arr, fn=None):
+    """defining equations of the canonical prefix-sum fold for one element array"""
+    if fn is None:
+        fn = SUM_REAL if arr.sort().range() == z3.RealSort() else SUM_INT
+    k = z3.Int(fresh_name("k_sum"))
+    return [fn(arr, 0) == 0, z3.ForAll([k], z3.Implies(k >= 0, fn(arr, k + 1) == fn(arr, k) + z3.Select(arr, k)))]
+
+
 CLASS_OF = z3.Function("class_of", z3.IntSort(), z3.IntSort())     # dynamic class of a reference
 # dynamic class membership: one predicate per class name
 _isinst = {}
